@@ -79,6 +79,15 @@ type parser struct {
 	chr               rune
 	insertSemicolon   bool
 	implicitSemicolon bool // Scratch when trying to seek to the next statement, etc.
+
+	// continue statements naming a label whose statement is still being parsed;
+	// once it is known they are checked to target an iteration statement.
+	labelledContinues []labelledContinue
+}
+
+type labelledContinue struct {
+	label string
+	idx   file.Idx
 }
 
 // Parser is implemented by types which can parse JavaScript Code.
